@@ -19,12 +19,23 @@ DI = {'{': "<%", '}': "%>", '[': "<:", ']': ":>", '#': "%:"}
 MODES = ("splice", "splice_tri", "splice_plain_then_tri", "splice_tri_then_plain", "tri", "di")
 
 
+# punctuator family: longer windows over the characters that take part in longest-match operator recognition and in
+# digraph / trigraph spellings (every character symbolic over this alphabet; 'a' and the blank separate tokens)
+PUNCT_Q = "<>%:=|#[a "
+PUNCT_T = "<>%:=|#[]{}-&^~+.a "
+
+
 def chunks(tier, N):
     out = []
     for n in range(1, N + 1):
         for mode in MODES:
             for g in range(len(LS._GROUPS) + 1):
                 out.append(dict(part="tokens", n=n, mode=mode, g=g))
+    fams = [(PUNCT_Q, 4)] if tier == "quick" else [(PUNCT_T, 4), (PUNCT_Q, 5)]
+    for alpha, n in fams:
+        for mode in MODES:
+            for first in alpha:
+                out.append(dict(part="tokens", n=n, mode=mode, g=-1, fam="punct", first=first, alpha=alpha))
     return out
 
 
@@ -134,8 +145,10 @@ def run_chunk(chunk, ctx):
     ex = Explorer()
     core.set_run(ex)
     dom = [c for c in range(128) if chr(c) not in "?\\"]
+    if chunk.get("fam") == "punct":
+        dom = [ord(c) for c in chunk["alpha"]]
     chars = [declare(Var(f"c{i}", dom)) for i in range(n)]
-    codes = LS._group_codes(g) & frozenset(dom)
+    codes = (LS._group_codes(g) & frozenset(dom)) if chunk.get("fam") != "punct" else frozenset([ord(chunk["first"])])
     if not codes:
         return dict(stats=dict(paths=0, exhaustive=True), validated=0, confirmed=[], unconfirmed=[], n_mismatch=0, mismatches=[],
                     samples=[], gaps={}, counters={}, notes={})
